@@ -485,7 +485,12 @@ class PrintNode(visitor.Visitor):
         return ".."
 
     def visit_BinaryOp(self, node):
-        return self.visit(node.left) + node.op + self.visit(node.right)
+        right = self.visit(node.right)
+        if node.right.__class__.__name__ == "UnaryOp":
+            # "a - -b" must not be printed as "a--b" (a decrement in C,
+            # two consecutive operators in Fortran).
+            right = "(" + right + ")"
+        return self.visit(node.left) + node.op + right
 
     def visit_UnaryOp(self, node):
         return node.op + self.visit(node.node)
